@@ -136,7 +136,7 @@ func (w *Worker) initOK(pkg *ssa.Package) bool {
 func (w *Worker) runPath(it workItem) (res *PathResult) {
 	dv := it.dv
 	in := &Interp{w: w, prog: w.prog, ts: w.ts,
-		globals: map[*ssa.Global]*value{}, initing: map[*ssa.Package]bool{},
+		globals: map[*ssa.Global]*value{}, initing: map[*ssa.Package]bool{}, atomicPtrs: map[*value]value{},
 		dv: dv, model: it.model.forWorker(), known: map[*Term]bool{}, inputCount: map[string]int{},
 		locks: map[*value]*lockState{}, wg: map[*value]int{}, locs: map[*value]*locInfo{}, objIDs: map[*value]int{},
 		concreteIn: w.cfg.Concrete,
